@@ -528,7 +528,13 @@ def moveLoop (srcRoot dstRoot : FsPath) (copyInto : Bool) : Nat → List FsPath 
     match (← removeEntry srcPath) with
     | none => fail .doesNotExist
     | some srcEntry =>
-      setEntry dstPath { srcEntry with path := dstPath }
+      -- `if dst_entry.link { dst_entry.rel = dst_entry.alt.relative(dst_path.dir()?)?; }`
+      -- (after `remove_entry`, before `insert_entry`; `relative` is total in Model/Path)
+      let rel ← (if srcEntry.link then do
+          let ld ← dirOf dstPath
+          M.pure (relative (renderP (srcEntry.alt.getD [])) (renderP ld))
+        else M.pure srcEntry.rel : M Str)
+      setEntry dstPath { srcEntry with path := dstPath, rel := rel }
       match (← removeFile srcPath) with
       | some b => setFile dstPath b
       | none => M.pure ()
